@@ -256,3 +256,279 @@ pub fn c03_unary_%(id)s_%(sh)d() {
 ''' % dict(id=opid(o), sh=sh, tier=tr, ty=tymap[t], t=t, o=o, unw=max(len(o) + 2, 4),
            shape=["null", "Bool(any)", "Number(any i64)", '""'][sh])
     return {"c03_op.rs": out}
+
+
+# ------------------------------------------------------------------------------------
+# C07 / C08 / C09: operand-shape pair matrices for the js_op comparison helpers
+# ------------------------------------------------------------------------------------
+
+SCALARS = ["null", "bool", "i64", "u64", "f64"]
+CONVS = ["strnum", "arrnum", "obj", "emptyarr"]       # string-likes met by a numeric partner (converted to number)
+STRLIKES = ["str", "arr1", "obj", "emptyarr"]         # string-likes met by another string-like (compared as text)
+
+
+def cmp_operand(kind, side, base=0):
+    """(rust expr building the operand, rust expr of its text or None, rust expr of its Number()-value or None)"""
+    a = base + (1 if side == "a" else 11)
+    if kind in ("null", "bool", "i64", "u64", "f64"):
+        return shape_expr(kind, a), None, "ref_num(&%s)" % side
+    if kind == "strnum":      # a string whose JS numeric value is the oracle R
+        return "Value::String(string_meaning(r_or))", None, None
+    if kind == "arrnum":      # an array whose text has numeric value R
+        return "Value::Array(vec![Value::String(string_meaning(r_or))])", None, None
+    if kind == "str":
+        return ("{ t%s = in_txt2::<%d, %d, %d>(); Value::String(txt_string(t%s)) }" % (side, a, a + 1, a + 2, side),
+                "t%s" % side, None)
+    if kind == "arr1":        # an array whose text is the 1-char oracle string
+        ch = "TS_A" if side == "a" else "TS_B"
+        return ("{ t%s = txt1(unsafe { %s }); Value::Array(vec![Value::String(str1(unsafe { %s }))]) }" % (side, ch, ch),
+                "t%s" % side, None)
+    if kind == "obj":         # text "[object Object]": longer than any Txt; handled by the generator
+        return "Value::Object(serde_json::Map::new())", "OBJ", None
+    if kind == "emptyarr":
+        return "{ t%s = txt0(); Value::Array(Vec::new()) }" % side, "t%s" % side, None
+    raise ValueError(kind)
+
+
+def ccat(kind):
+    return {"null": "N", "bool": "M", "i64": "M", "u64": "M", "f64": "M", "strnum": "S", "str": "S"}.get(kind, "O")
+
+
+def cmp_block(prop, ka, kb, base=0):
+    ea, ta, na = cmp_operand(ka, "a", base)
+    eb, tb, nb = cmp_operand(kb, "b", base)
+    ca, cb = ccat(ka), ccat(kb)
+    pre = ""
+    # numeric meaning of fixed-text string-likes is a corpus fact (c07_s2n_corpus): "[object Object]" -> NaN, "" -> 0
+    for k in (ka, kb):
+        if k == "obj" and (na or nb):
+            pre += "        assume(r_or.is_none());\n"
+        if k == "emptyarr" and (na or nb):
+            pre += "        assume(r_or.map(f64::to_bits) == Some(0.0f64.to_bits()));\n"
+    numeric_a, numeric_b = na is not None, nb is not None
+    if prop == "C07":
+        if ca == "N" and cb == "N":
+            exp = "true"
+        elif ca == "N" or cb == "N":
+            exp = "false"
+        elif numeric_a and numeric_b:
+            exp = "%s == %s" % (na, nb)
+        elif numeric_a or numeric_b:
+            f = na if numeric_a else nb
+            exp = "r_or.map(|r| %s == r).unwrap_or(false)" % f
+        elif ca == "O" and cb == "O":
+            exp = "false"
+        elif ta == "OBJ" or tb == "OBJ":
+            exp = "false"      # "[object Object]" (15 chars) never equals a text of <= 2 chars
+        else:
+            exp = "txt_eq(%s, %s)" % (ta, tb)
+        calls = '''        let got = js_op::abstract_eq(&a, &b);
+        let got_rev = js_op::abstract_eq(&b, &a);
+        let got_ne = js_op::abstract_ne(&a, &b);
+        vshow!("{:?} == {:?} -> {} (expected {})", a, b, got, exp);
+        assert!(got == exp, "C07: == differs from ECMAScript abstract equality");
+        assert!(got_rev == exp, "C07: == is not symmetric");
+        assert!(got_ne == !exp, "C07: != is not the negation of ==");
+'''
+    else:  # C09
+        if numeric_a and numeric_b:
+            lt, lte = "%s < %s" % (na, nb), "%s <= %s" % (na, nb)
+        elif numeric_a:
+            lt, lte = "r_or.map(|r| %s < r).unwrap_or(false)" % na, "r_or.map(|r| %s <= r).unwrap_or(false)" % na
+        elif numeric_b:
+            lt, lte = "r_or.map(|r| r < %s).unwrap_or(false)" % nb, "r_or.map(|r| r <= %s).unwrap_or(false)" % nb
+        elif ta == "OBJ" and tb == "OBJ":
+            lt, lte = "false", "true"
+        elif ta == "OBJ":     # "[object Object]" vs t: compare '[' with t's first char; t == "" is smaller; t is never a proper extension
+            lt, lte = ("(tb.n > 0 && ('[' as u32) < (tb.c[0] as u32))", "(tb.n > 0 && ('[' as u32) < (tb.c[0] as u32))")
+        elif tb == "OBJ":     # t vs "[object Object]": t < it iff t == "" or t[0] < '[' or (t[0] == '[' and (n == 1 or t[1] < 'o'))
+            lt = "(ta.n == 0 || (ta.c[0] as u32) < ('[' as u32) || (ta.c[0] == '[' && (ta.n == 1 || (ta.c[1] as u32) < ('o' as u32) || ta.c[1] == 'o')))"
+            lte = lt
+        else:
+            lt, lte = "txt_cmp(%s, %s) < 0" % (ta, tb), "txt_cmp(%s, %s) <= 0" % (ta, tb)
+        exp = "(%s, %s)" % (lt, lte)
+        calls = '''        let got_lt = js_op::abstract_lt(&a, &b);
+        let got_gt = js_op::abstract_gt(&b, &a);
+        let got_lte = js_op::abstract_lte(&a, &b);
+        let got_gte = js_op::abstract_gte(&b, &a);
+        vshow!("{:?} ? {:?}: lt={} lte={} (expected {:?})", a, b, got_lt, got_lte, exp);
+        assert!(got_lt == exp.0, "C09: a < b differs from ECMAScript");
+        assert!(got_gt == exp.0, "C09: b > a differs from a < b");
+        assert!(got_lte == exp.1, "C09: a <= b differs from ECMAScript (less or equal after conversion)");
+        assert!(got_gte == exp.1, "C09: b >= a differs from a <= b");
+'''
+    scalar_only = numeric_a and numeric_b or (ca == "N" and numeric_b) or (cb == "N" and numeric_a) or (ca == "N" and cb == "N")
+    post = ""
+    if ka in SCALARS and kb in SCALARS:
+        post = '        assert!(unsafe { S2N_CALLS } == 0, "string-to-number conversion used for a pair without strings");\n'
+    return '''    {
+        let mut ta = txt0();
+        let mut tb = txt0();
+        let a = %(ea)s;
+        let b = %(eb)s;
+        unsafe {
+            TS_PTR_A = &a;
+            TS_PTR_B = &b;
+            S2N_CALLS = 0;
+        }
+%(pre)s        let exp = %(exp)s;
+%(calls)s%(post)s        std::mem::forget(a);
+        std::mem::forget(b);
+    }
+''' % dict(ea=ea, eb=eb, pre=pre, exp=exp, calls=calls, post=post)
+
+
+CMP_PRELUDE = '''//! %(prop)s harnesses (generated) - child module of `op` (staged copy only).
+#![allow(unused)]
+use super::*;
+use crate::verif_common::*;
+use crate::{vcover, vshow};
+use crate::js_op;
+use serde_json::{Map, Number, Value};
+
+/// Number()-value of a Null / Bool / Number operand (reference)
+fn ref_num(v: &Value) -> f64 {
+    match v {
+        Value::Null => 0.0,
+        Value::Bool(b) => if *b { 1.0 } else { 0.0 },
+        Value::Number(n) => n.as_f64().unwrap(),
+        _ => { assert!(false, "not a numeric operand"); 0.0 }
+    }
+}
+fn text_of(v: &Value) -> String {
+    match v {
+        Value::String(s) => s.clone(),
+        _ => { assert!(false, "not a string operand"); String::new() }
+    }
+}
+/// lexicographic comparison by code point (reference): -1 / 0 / 1
+fn cmp_text(a: &String, b: &String) -> i32 {
+    let mut ia = a.chars();
+    let mut ib = b.chars();
+    let mut k = 0;
+    while k < 16 {
+        match (ia.next(), ib.next()) {
+            (None, None) => return 0,
+            (None, Some(_)) => return -1,
+            (Some(_), None) => return 1,
+            (Some(x), Some(y)) => {
+                if (x as u32) < (y as u32) { return -1; }
+                if (x as u32) > (y as u32) { return 1; }
+            }
+        }
+        k += 1;
+    }
+    0
+}
+'''
+
+
+def cmp_harness(prop, name, pairs, tier, timeout, unwind=20):
+    blocks = "".join(cmp_block(prop, a, b, 20 * i) for i, (a, b) in enumerate(pairs))
+    doc = "; ".join("(%s, %s)" % (sdoc(a), sdoc(b)) for a, b in pairs)
+    fns = ("js_op::abstract_eq, js_op::abstract_ne" if prop == "C07" else
+           "js_op::abstract_lt, js_op::abstract_gt, js_op::abstract_lte, js_op::abstract_gte, js_op::to_primitive")
+    return '''
+//@ harness: %(name)s tier=%(tier)s timeout=%(timeout)d kind=main mem=%(mem)d
+//@ encodes: %(fns)s (callees str_to_number / to_string replaced by oracles: dispatch modulo conversion)
+//@ bound: operand pairs %(doc)s; payloads fully symbolic; string meaning R = any non-NaN double or non-numeric
+#[cfg_attr(kani, kani::proof)]
+#[cfg_attr(kani, kani::unwind(%(unwind)d))]
+#[cfg_attr(kani, kani::stub(std::fmt::format, stub_format))]
+#[cfg_attr(kani, kani::stub(crate::js_op::str_to_number, s2n_oracle))]
+#[cfg_attr(kani, kani::stub(crate::js_op::to_string, to_string_oracle))]
+#[cfg_attr(verif_replay, test)]
+pub fn %(name)s() {
+    let r_or = oracle_setup::<900, 901, 902, 903>();
+%(blocks)s}
+''' % dict(name=name, tier=tier, timeout=timeout, fns=fns, doc=doc, unwind=unwind, blocks=blocks,
+           mem=6 if any(a == "str" or b == "str" for a, b in pairs) else 3)
+
+
+def cmp_matrix(prop, pfx):
+    """returns list of (name, pairs, tier)"""
+    hs = []
+    chunk = 5 if pfx == "c07" else 2
+    # scalar x scalar: harnesses per left shape
+    for a in SCALARS:
+        ps = [(a, b) for b in SCALARS]
+        for i in range(0, len(ps), chunk):
+            hs.append(("%s_sc_%s_%d" % (pfx, a, i // chunk), ps[i:i + chunk], "quick" if a in ("null", "f64", "bool") else "thorough"))
+    # scalar x converted string-like, both orders
+    for a in SCALARS:
+        ps = [(a, b) for b in CONVS] + [(b, a) for b in CONVS]
+        for i in range(0, len(ps), chunk):
+            hs.append(("%s_cv_%s_%d" % (pfx, a, i // chunk), ps[i:i + chunk],
+                       "quick" if a in ("null", "i64", "bool") else "thorough"))
+    # string-like x string-like
+    for a in STRLIKES:
+        for b in STRLIKES:
+            q = (a, b) in (("str", "str"), ("str", "arr1"), ("arr1", "str"), ("obj", "obj"), ("arr1", "emptyarr"), ("str", "obj"))
+            hs.append(("%s_sl_%s_%s" % (pfx, a, b), [(a, b)], "quick" if q else "thorough"))
+    return hs
+
+
+def gen_c07(tier):
+    out = CMP_PRELUDE % dict(prop="C07")
+    for name, pairs, t in cmp_matrix("C07", "c07"):
+        out += cmp_harness("C07", name, pairs, t, 900)
+    out += prelude("c07_extra.rs")
+    out += s2n_corpus_harnesses("C07", "c07", "C07: string-to-number differs from the JavaScript rules")
+    return {"c07_op.rs": out}
+
+
+def gen_c09(tier):
+    out = CMP_PRELUDE % dict(prop="C09")
+    for name, pairs, t in cmp_matrix("C09", "c09"):
+        out += cmp_harness("C09", name, pairs, t, 900)
+    out += prelude("c09_extra.rs")
+    return {"c09_op.rs": out}
+
+
+# ------------------------------------------------------------------------------------
+# text -> number corpora (R6b): the real conversion on constant strings, expectations from oracle_js
+# ------------------------------------------------------------------------------------
+
+def rust_str(s):
+    out = '"'
+    for ch in s:
+        o = ord(ch)
+        if ch in '"\\':
+            out += "\\" + ch
+        elif 32 <= o < 127:
+            out += ch
+        else:
+            out += "\\u{%x}" % o
+    return out + '"'
+
+
+def s2n_corpus_harnesses(prop, pfx, msg, group=5, quick_groups=99):
+    import oracle_js
+    oracle_js.selftest()
+    out = ""
+    corpus = oracle_js.S2N_CORPUS
+    for gi in range(0, len(corpus), group):
+        grp = corpus[gi:gi + group]
+        body = ""
+        for s in grp:
+            exp = oracle_js.rust_f64(oracle_js.string_to_number(s))
+            body += '''    {
+        let got = js_op::str_to_number(%(lit)s);
+        let exp: Option<f64> = %(exp)s;
+        vshow!("Number({:?}) = {:?}, expected {:?}", %(lit)s, got, exp);
+        assert!(got == exp, "%(msg)s");
+    }
+''' % dict(lit=rust_str(s), exp=exp, msg=msg)
+        out += '''
+//@ harness: %(pfx)s_s2n_corpus_%(i)d tier=%(tier)s timeout=900 kind=main mem=6
+//@ encodes: js_op::str_to_number::<&str> (real, incl. char trimming, radix prefixes and core dec2flt)
+//@ bound: corpus strings %(doc)s. NOTE: constant-folded symbolic execution of the compiled code on each string (exact evaluation by the engine; no quantifier over strings)
+#[cfg_attr(kani, kani::proof)]
+#[cfg_attr(kani, kani::unwind(40))]
+#[cfg_attr(kani, kani::stub(std::fmt::format, stub_format))]
+#[cfg_attr(verif_replay, test)]
+pub fn %(pfx)s_s2n_corpus_%(i)d() {
+%(body)s}
+''' % dict(pfx=pfx, i=gi // group, tier="quick" if gi // group < quick_groups else "thorough",
+           doc=" ".join(repr(s) for s in grp).replace("\n", " "), body=body)
+    return out
